@@ -13,6 +13,9 @@ is NO hypothesis left: `C02_BytesEqSize_holds` proves `C02_BytesEqSize_Statement
 is made of characters below 256 (`C02_strings_narrow`).  The former counterexample `FCC 'Ā'` is a diagnostic now
 (`C02_fcc_wide_counterexample_fixed`).  The variants with hypotheses on the input (`..._narrow_input`, `..._ascii`,
 `..._nostring`, `C02_BytesEqSize_partial`) are kept as corollaries.
+Batch B3 (a label as constant offset of a pointer register, `LDA TABLE,X`): the statements are unchanged; the new
+form is covered by `C02_label_offset_field` (16-bit field, size = op code + post byte + 2) and the evaluated
+`C02_label_offset_example`; `LDA A,X+` is a diagnostic (`C02_acc_autoinc_diag`).
 Consequences: an accepted program has an image (`C02_image_exists`); `C02_offset_full`, the position of every
 statement's bytes inside the image, without the size hypothesis of `C02_offset`.  Also here: `ORG SYM`
 (`C02_org_symbol`, `C02_org_final`).
@@ -59,6 +62,7 @@ theorem C02_stmt_core {fs : Files} {lines : List Str} {a : Assembly} (h : assemb
   have tfix := tr.hfix
   have tfit := tr.hfit
   have top : s.operand = tr.o := tr.operand_eq
+  have hplain0 := tr.plainShape
   generalize tr.s0 = s0 at *
   generalize tr.o = o at *
   generalize tr.p = p at *
@@ -82,8 +86,8 @@ theorem C02_stmt_core {fs : Files} {lines : List Str} {a : Assembly} (h : assemb
       s4.pkg = { p with address := ad4 } := by
     intro hn hc
     have : (mkTranslated s0 o p).fixedSize = true := by
-      show (!(p.needsRes || !p.choices.isEmpty)) = true
-      rw [hn, hc]; rfl
+      show p.choices.isEmpty = true
+      rw [hc]; rfl
     rw [e4, tfixed this]; rfl
   cases hsk : fitSkipped s0.row with
   | false =>
@@ -158,32 +162,7 @@ theorem C02_stmt_core {fs : Files} {lines : List Str} {a : Assembly} (h : assemb
   | true =>
     -- PSHS / TFR ..., and the directives other than FCB / FDB: emitted as translated
     have es : s = sf := fitWidth_skipped tfit (by rw [hrowf]; exact hsk)
-    have hplain : PlainShape o p := by
-      have htr := htr0
-      obtain ⟨txt, hcr⟩ := parsed.2
-      obtain ⟨k1, k2, _, _⟩ := createOperand_kind hcr
-      cases hsp : s0.row.isSpecial with
-      | true =>
-        have hp := f6 hsp
-        have hk0 := k2 hp hsp
-        have hk : o.kind = .special := by
-          rcases resolveOperand_kind hres with h' | ⟨h', _⟩
-          · rw [h']; exact hk0
-          · rw [hk0] at h'; cases h'
-        unfold translateOperand at htr
-        rw [hk] at htr
-        exact translateSpecial_plain hrow hsp (sh1.nov (.inl hk)) htr
-      | false =>
-        unfold fitSkipped at hsk
-        rw [hsp] at hsk
-        simp only [Bool.or_false, Bool.and_eq_true, Bool.not_eq_true', Bool.or_eq_false_iff] at hsk
-        obtain ⟨hp, hmb, hmw⟩ := hsk
-        have hk : o.kind = .pseudo := (resolveOperand_kind_pseudo hres).2 (k1 hp)
-        unfold translateOperand at htr
-        rw [hk] at htr
-        refine translatePseudo_plain ?_ ?_ (sh1.plain hk) htr
-        · intro hm; rw [f7 hm] at hmb; cases hmb
-        · intro hm; rw [f8 hm] at hmw; cases hmw
+    have hplain : PlainShape o p := hplain0 hsk
     have hk : (s4.operand.kind == .relative) = false := by
       rw [hop4]
       cases hkk : o.kind <;> first | rfl | skip
@@ -467,6 +446,150 @@ theorem C02_size_example :
       rw [List.mem_iff_getElem?]
       exact ⟨j - 2, by rw [List.getElem?_drop]; rw [show 2 + (j - 2) = j by omega]; exact hs⟩
     exact h4 s this
+
+/-! ### a label as constant offset of a pointer register (batch B3) -/
+
+/-- **the label-offset form** (`LDA TABLE,X`, batch B3): a statement of an accepted program that is resolved at
+`fix_addresses` (`needsRes`) and has no post byte choices — a label or label expression as constant offset of a
+pointer register, not of the PC — carries a 16-bit field: a number below 65536 in four hex digits; its size is
+op code + post byte + 2 bytes -/
+theorem C02_label_offset_field {fs : Files} {lines : List Str} {a : Assembly} (h : assemble fs lines = .ok a)
+    {i : Nat} {s : Stmt} (hs : a.stmts[i]? = some s) (hn : s.pkg.needsRes = true) (hc : s.pkg.choices = []) :
+    ∃ n a' b', s.pkg.additional = .numeric n (some 4) .extended false ∧ n < 65536 ∧
+      s.pkg.opCode.hexLen? = some a' ∧ s.pkg.postByte.hexLen? = some b' ∧ 2 * s.pkg.size = a' + b' + 4 := by
+  obtain ⟨st⟩ := assemble_stages h
+  obtain ⟨tr⟩ := st.trace hs
+  have hss := st.addr4_numeric
+  have hrow := tr.rowFacts
+  have sh1 := tr.shape1
+  have kp := tr.kind_pseudo
+  have ks := tr.kind_special
+  have htr0 := tr.htr
+  have tpcr := tr.pcr
+  have tfixed := tr.fixed
+  have taddr := tr.addr
+  have tfix := tr.hfix
+  have tfit := tr.hfit
+  have hplain0 := tr.plainShape
+  generalize tr.s0 = s0 at *
+  generalize tr.o = o at *
+  generalize tr.p = p at *
+  generalize tr.s3 = s3 at *
+  generalize tr.s4 = s4 at *
+  generalize tr.sf = sf at *
+  clear tr
+  obtain ⟨sz3, mx3, pb3, hint3, fx3, e3⟩ := tpcr
+  obtain ⟨ad4, e4⟩ := taddr
+  obtain ⟨vf, ef⟩ := fixOne_same tfix
+  obtain ⟨vw, ew⟩ := fitWidth_same tfit
+  have hnp : p.needsRes = true := by rw [ew, ef, e4, e3] at hn; exact hn
+  have hcp : p.choices = [] := by rw [ew, ef, e4, e3] at hc; exact hc
+  have e3' : s3 = mkTranslated s0 o p := tfixed (by show p.choices.isEmpty = true; rw [hcp]; rfl)
+  have hrowf : sf.row = s0.row := by rw [ef, e4, e3']; rfl
+  cases hsk : fitSkipped s0.row with
+  | true =>
+    have := (hplain0 hsk).needs
+    rw [hnp] at this; cases this
+  | false =>
+    have psh := translateOperand_shape hrow sh1 hsk kp (fun hk => (ks hk).2) htr0
+    have hroom := psh.lbl hnp hcp
+    rcases fixOne_field hss tfix with hnum | ⟨_, hn5, _, _⟩
+    · cases hv : sf.pkg.additional with
+      | numeric n hh m neg =>
+        obtain ⟨a', b', w, ha, hb, hw, hsz, _, _, es⟩ := fitWidth_numeric tfit (by rw [hrowf]; exact hsk) hv
+        have ho : sf.pkg.opCode = p.opCode := by rw [ef, e4, e3']; rfl
+        have hp : sf.pkg.postByte = p.postByte := by rw [ef, e4, e3']; rfl
+        have hz : sf.pkg.size = p.size := by rw [ef, e4, e3']; rfl
+        have l1 := psh.op.emits.1
+        have l2 := psh.pb.emits.1
+        rw [ho, l1] at ha; cases ha
+        rw [hp, l2] at hb; cases hb
+        rw [hz] at hsz
+        have hw4 : w = 4 := by omega
+        subst hw4
+        refine ⟨(fitInt n neg % 2 ^ (4 * 4)).toNat, hl p.opCode, hl p.postByte, by rw [es]; rfl, ?_,
+          by rw [es]; show sf.pkg.opCode.hexLen? = _; rw [ho, l1],
+          by rw [es]; show sf.pkg.postByte.hexLen? = _; rw [hp, l2],
+          by rw [es]; show 2 * sf.pkg.size = _; rw [hz]; exact hsz⟩
+        have h1 : fitInt n neg % 65536 < 65536 := Int.emod_lt_of_pos _ (by decide)
+        have h0 : 0 ≤ fitInt n neg % 65536 := Int.emod_nonneg _ (by decide)
+        show (fitInt n neg % 65536).toNat < 65536
+        omega
+      | _ => rw [hv] at hnum; cases hnum
+    · rw [e4, e3] at hn5
+      have hn5 : p.needsRes = false := hn5
+      rw [hnp] at hn5; cases hn5
+
+/-- `LDA T,X`, `LDB T+1,Y`, `LDD [T,U]`, `LDA [T+1]` before and after the definition of `T` (at `$0E10`) -/
+def C02_labelOffsetExample : List Str :=
+  [" ORG $0E00\n", " LDA T,X\n", " LDB T+1,Y\n", " LDD [T,U]\n", " LDA [T+1]\n", "T FCB 1\n",
+   " LDA T,X\n", " LDB T+1,Y\n", " LDD [T,U]\n", " LDA [T+1]\n"].map String.toList
+
+/-- the bytes of the four instructions: op code, post byte (16-bit constant offset `$89`/`$A9`, its indirect form
+`$D9`, extended indirect `$9F`), and the ADDRESS of `T` resp. `T+1` as the 16-bit offset -/
+def C02_labelOffsetBytes : List Bytes :=
+  [[0xA6, 0x89, 0x0E, 0x10], [0xE6, 0xA9, 0x0E, 0x11], [0xEC, 0xD9, 0x0E, 0x10], [0xA6, 0x9F, 0x0E, 0x11]]
+
+private def labelOffsetCheck (a : Assembly) : Bool :=
+  a.stmts.all (fun s => (stmtBytes s).map List.length == some s.pkg.size) &&
+  a.stmts.map (fun s => s.pkg.size) == [0, 4, 4, 4, 4, 1, 4, 4, 4, 4] &&
+  a.stmts.map stmtBytes == ([[]] ++ C02_labelOffsetBytes ++ [[1]] ++ C02_labelOffsetBytes).map some &&
+  a.image == some (C02_labelOffsetBytes.flatten ++ [1] ++ C02_labelOffsetBytes.flatten) &&
+  a.origin.int? == some 0x0E00 && (a.symtab.get? "T".toList).bind Value.int? == some 0x0E10 &&
+  (a.stmts[5]?).bind addrNat == some 0x0E10 &&
+  a.stmts.map (fun s => s.pkg.needsRes && s.pkg.choices.isEmpty) ==
+    [false, true, true, true, false, false, true, true, true, false]
+
+/-- the program is accepted; every statement emits `size` bytes; each of the label-offset forms is 4 bytes long (op
+code, post byte, 16-bit field) and carries the address of `T` (`$0E10`), resp. `T+1`, the same before and after the
+definition; the image is stated; the six register-offset statements satisfy the hypotheses of
+`C02_label_offset_field` (`[T+1]`, extended indirect, is the older form).  (Python, /tmp/wt-b3n, prints the same
+listing.) -/
+theorem C02_label_offset_example :
+    ∃ a, assemble [] C02_labelOffsetExample = .ok a ∧
+      (∀ s ∈ a.stmts, (stmtBytes s).map List.length = some s.pkg.size) ∧
+      a.stmts.map (fun s => s.pkg.size) = [0, 4, 4, 4, 4, 1, 4, 4, 4, 4] ∧
+      a.stmts.map stmtBytes = ([[]] ++ C02_labelOffsetBytes ++ [[1]] ++ C02_labelOffsetBytes).map some ∧
+      a.image = some (C02_labelOffsetBytes.flatten ++ [1] ++ C02_labelOffsetBytes.flatten) ∧
+      a.origin.int? = some 0x0E00 ∧ (a.stmts[5]?).bind addrNat = some 0x0E10 ∧
+      (a.symtab.get? "T".toList).bind Value.int? = some 0x0E10 ∧
+      a.stmts.map (fun s => s.pkg.needsRes && s.pkg.choices.isEmpty) =
+        [false, true, true, true, false, false, true, true, true, false] := by
+  obtain ⟨a, ha, hchk⟩ := checkProgram_sound (lines := C02_labelOffsetExample) (check := labelOffsetCheck)
+    (by decide +kernel) []
+  unfold labelOffsetCheck at hchk
+  simp only [Bool.and_eq_true, List.all_eq_true, beq_iff_eq] at hchk
+  obtain ⟨⟨⟨⟨⟨⟨⟨h1, h2⟩, h3⟩, h4⟩, h5⟩, h6⟩, h7⟩, h8⟩ := hchk
+  exact ⟨a, ha, h1, h2, h3, h4, h5, h7, h6, h8⟩
+
+/-- the same without an ORG: `T` sits at `$0010` and the field is `00 10` (a small address still takes the 16-bit
+form: the size was fixed at translation, before the address was known) -/
+def C02_labelOffsetSmall : List Str :=
+  [" LDA T,X\n", " LDB T+1,Y\n", " LDD [T,U]\n", " LDA [T+1]\n", "T FCB 1\n"].map String.toList
+
+private def labelOffsetSmallCheck (a : Assembly) : Bool :=
+  a.stmts.all (fun s => (stmtBytes s).map List.length == some s.pkg.size) &&
+  a.image == some [0xA6, 0x89, 0x00, 0x10, 0xE6, 0xA9, 0x00, 0x11, 0xEC, 0xD9, 0x00, 0x10, 0xA6, 0x9F, 0x00, 0x11, 1]
+
+theorem C02_label_offset_small_example :
+    ∃ a, assemble [] C02_labelOffsetSmall = .ok a ∧
+      (∀ s ∈ a.stmts, (stmtBytes s).map List.length = some s.pkg.size) ∧
+      a.image = some [0xA6, 0x89, 0x00, 0x10, 0xE6, 0xA9, 0x00, 0x11, 0xEC, 0xD9, 0x00, 0x10, 0xA6, 0x9F, 0x00, 0x11, 1] := by
+  obtain ⟨a, ha, hchk⟩ := checkProgram_sound (lines := C02_labelOffsetSmall) (check := labelOffsetSmallCheck)
+    (by decide +kernel) []
+  unfold labelOffsetSmallCheck at hchk
+  simp only [Bool.and_eq_true, List.all_eq_true, beq_iff_eq] at hchk
+  exact ⟨a, ha, hchk.1, hchk.2⟩
+
+/-- an accumulator offset with auto increment / decrement is a diagnostic ("invalid indexed expression"), plain and
+inside brackets -/
+theorem C02_acc_autoinc_diag (fs : Files) :
+    assemble fs ([" LDA A,X+\n"].map String.toList) = .diag ∧
+    assemble fs ([" LDA B,-X\n"].map String.toList) = .diag ∧
+    assemble fs ([" LDA [D,--Y]\n"].map String.toList) = .diag ∧
+    assemble fs ([" LDA [A,X++]\n"].map String.toList) = .diag :=
+  ⟨diagProgram_sound (by decide +kernel) fs, diagProgram_sound (by decide +kernel) fs,
+   diagProgram_sound (by decide +kernel) fs, diagProgram_sound (by decide +kernel) fs⟩
 
 /-! ### ORG with a symbol (former finding B9, repaired) -/
 
